@@ -143,7 +143,7 @@ def template(name):
 def dest(shp):
     if shp == 'S':
         return 'A1'
-    return 'A1:%s%d' % ('ABCD'[shp[1] - 1], shp[0])
+    return 'A1:%s%d' % ('ABCDEFGH'[shp[1] - 1], shp[0])
 
 
 @functools.lru_cache(maxsize=None)
